@@ -7,3 +7,134 @@ try:
     REPLAYERS.update(getattr(_ring, "REPLAYERS", {}))
 except ImportError:
     _ring = None
+
+import numpy, z3
+from pyvc import sym, oarr, loopcut, lemma
+from pyvc.sym import cur, _t, fresh_int
+from pyvc.oarr import OArr, same
+from contracts import meiosis
+from contracts.C11 import mapfn_lemmas
+
+UTIL = "pybrops/breed/prot/mate/util.py"
+CORE = "pybrops/core/util/mate.py"
+
+
+@unit(P, "meiosis[mate/util.mat_meiosis]: copy switches between j-1 and j iff the draw is below xoprob[j]", "A2", targets=[UTIL + ":mat_meiosis"])
+def u_k1(ctx):
+    meiosis.prove_meiosis(ctx, UTIL + ":mat_meiosis")
+
+
+@unit(P, "meiosis[core/util/mate.dense_meiosis]: copy switches between j-1 and j iff the draw is below xoprob[j]", "A2", targets=[CORE + ":dense_meiosis"])
+def u_k2(ctx):
+    meiosis.prove_meiosis(ctx, CORE + ":dense_meiosis")
+
+
+@unit(P, "lemma[Haldane laws incl. composition]", "L", targets=["pybrops/popgen/gmap/HaldaneMapFunction.py:HaldaneMapFunction.mapfn"])
+def u_h(ctx):
+    mapfn_lemmas(ctx, "Haldane")
+
+
+@unit(P, "lemma[probability algebra of independent switches]", "L", targets=[])
+def u_prob(ctx):
+    """Deterministic reduction of the distributional statement (DESIGN §8 C02).  Assumed, not verified: the entries of
+    one uniform(0,1,shape) draw are i.i.d. U[0,1), so P(U < p) = p for p in [0,1]; law of large numbers."""
+    ctx.assume_note("entries of Generator/RandomState.uniform(0,1,shape) are i.i.d. U[0,1): P(U < p) = p for 0 <= p <= 1",
+                    "law of large numbers (convergence of observed proportions)")
+    a, b, x, s = z3.Reals("a b x s")
+    unit_iv = [0 <= a, a <= 1, 0 <= b, b <= 1, 0 <= x, x <= 1]
+    # two independent switch indicators with probabilities a and b: odd number of switches
+    odd = a * (1 - b) + (1 - a) * b
+    ctx.prove("parity: P(odd switches over two independent intervals) == a(1-b)+(1-a)b  <=>  1-2r13 == (1-2a)(1-2b)", unit_iv,
+              z3.And(1 - 2 * odd == (1 - 2 * a) * (1 - 2 * b), 0 <= odd, odd <= 1))
+    # start switch with probability 1/2 makes the copy uniform at every later locus whatever the later probability x
+    ctx.prove("segregation: with start probability 1/2, P(copy 1) stays 1/2 after a switch of any probability x", unit_iv,
+              z3.RealVal("1/2") * (1 - x) + z3.RealVal("1/2") * x == z3.RealVal("1/2"))
+    # induction step for P(copy 1 at locus j) = s_j:  s_{j+1} = s_j (1-x) + (1-s_j) x ; s_j = 1/2 is a fixed point
+    ctx.prove("segregation: s -> s(1-x)+(1-s)x has the fixed point 1/2", unit_iv + [s == z3.RealVal("1/2")],
+              s * (1 - x) + (1 - s) * x == z3.RealVal("1/2"))
+    # independence across chromosomes: the start switch (prob 1/2) is an independent draw, so the joint law of two
+    # chromosome-start copies is the product 1/4 each; stated as the algebraic fact used
+    ctx.prove("assortment: product law of two independent fair start switches", [], z3.RealVal("1/2") * z3.RealVal("1/2") == z3.RealVal("1/4"))
+    ctx.prove("canary: parity identity with a wrong sign", unit_iv, 1 - 2 * odd == (1 + 2 * a) * (1 - 2 * b), expect="fail", timeout_ms=3000)
+
+
+@unit(P, "A1[interp_xoprob == mapfn(gdist1g(chr, interp_genpos(chr, phys))) and stores both]", "A1", targets=[
+    "pybrops/popgen/gmap/DenseGeneticMappableMatrix.py:DenseGeneticMappableMatrix.interp_xoprob",
+    "pybrops/popgen/gmap/HaldaneMapFunction.py:HaldaneMapFunction.rprob1g"])
+def u_interp(ctx):
+    ctx.trust("gmap.interp_genpos / gmap.gdist1g / mapfn used through their contracts (C11); opaque arrays")
+    ex = ctx.explorer()
+
+    def thunk():
+        import importlib
+        e = cur()
+        for which in ("Haldane", "Kosambi"):
+            MF = getattr(importlib.import_module("pybrops.popgen.gmap.%sMapFunction" % which), "%sMapFunction" % which)
+            from pybrops.popgen.gmat.DensePhasedGenotypeMatrix import DensePhasedGenotypeMatrix as PG
+            p = fresh_int("p", 0)
+            obj = object.__new__(PG)
+            chr_, phy = OArr.fresh("chr", (p,), "int64"), OArr.fresh("phy", (p,), "int64")
+            for k, v in dict(_vrnt_chrgrp=chr_, _vrnt_phypos=phy, _vrnt_genpos=None, _vrnt_xoprob=None,
+                             _mat=OArr.fresh("mat", (2, fresh_int("n", 0), p), "int8")).items():
+                object.__setattr__(obj, k, v)
+            for m in ("_vrnt_chrgrp_name", "_vrnt_chrgrp_stix", "_vrnt_chrgrp_spix", "_vrnt_chrgrp_len"):
+                object.__setattr__(obj, m, OArr.fresh(m, (fresh_int("g", 0),), "int64"))
+            calls = []
+
+            class GMap:      # contract stub of a GeneticMap
+                def interp_genpos(self, c, ph, **kw):
+                    calls.append(("interp_genpos", c, ph))
+                    self.gp = OArr.fresh("genpos", (p,), "float64")
+                    return self.gp
+
+                def gdist1g(self, c, g, *a, **kw):
+                    calls.append(("gdist1g", c, g))
+                    self.d = OArr.fresh("gdist", (p,), "float64")
+                    return self.d
+            gm = GMap()
+            mf = MF()
+            seen = {}
+            real_mapfn = MF.mapfn
+
+            def mapfn(self_, d):
+                seen["arg"] = d
+                seen["out"] = OArr.fresh("r", (p,), "float64")
+                return seen["out"]
+            MF.mapfn = mapfn
+            try:
+                import pybrops.popgen.gmap.DenseGeneticMappableMatrix as M
+                saved = (M.check_is_GeneticMap, M.check_is_GeneticMapFunction)
+                M.check_is_GeneticMap = M.check_is_GeneticMapFunction = lambda *a: None
+                try:
+                    PG.interp_xoprob(obj, gm, mf)
+                finally:
+                    M.check_is_GeneticMap, M.check_is_GeneticMapFunction = saved
+            finally:
+                MF.mapfn = real_mapfn
+            n = which + ":"
+            e.prove(n + "genpos := gmap.interp_genpos(chr, phys)", len(calls) >= 1 and calls[0][0] == "interp_genpos" and
+                    calls[0][1] is chr_ and calls[0][2] is phy and same(obj._vrnt_genpos, gm.gp))
+            e.prove(n + "distance := gmap.gdist1g(chr, interpolated genpos)", len(calls) == 2 and calls[1][0] == "gdist1g" and
+                    calls[1][1] is chr_ and same(calls[1][2], gm.gp))
+            e.prove(n + "xoprob := mapfn(sequential distance)", seen.get("arg") is gm.d and same(obj._vrnt_xoprob, seen["out"]))
+        return "ok"
+    with oarr.patched_numpy(), loopcut.patched_modules(["pybrops.*"]):
+        outs = ex.explore(thunk)
+    ctx.absorb(ex)
+    raised = [o for o in outs if isinstance(o, sym.Raised)]
+    ctx.record("interp_xoprob:noraise", not raised, kind="noraise", detail="; ".join(repr(r) + r.tb[-700:] for r in raised[:1]))
+
+
+from contracts.C11 import prove_gdist1g
+
+
+@unit(P, "loop[StandardGeneticMap.gdist1g]: +inf (hence xoprob 1/2) exactly at chromosome starts", "A2",
+      targets=["pybrops/popgen/gmap/StandardGeneticMap.py:StandardGeneticMap.gdist1g"])
+def u_gd_std(ctx):
+    prove_gdist1g(ctx, "pybrops/popgen/gmap/StandardGeneticMap.py", "StandardGeneticMap")
+
+
+@unit(P, "loop[ExtendedGeneticMap.gdist1g]: +inf (hence xoprob 1/2) exactly at chromosome starts", "A2",
+      targets=["pybrops/popgen/gmap/ExtendedGeneticMap.py:ExtendedGeneticMap.gdist1g"])
+def u_gd_ext(ctx):
+    prove_gdist1g(ctx, "pybrops/popgen/gmap/ExtendedGeneticMap.py", "ExtendedGeneticMap")
